@@ -370,7 +370,13 @@ fn render_comments(cs: &[CommentDoc], indent: i32, opts: &RenderOpts, state: &mu
             state.swallow_next_break = true;
         } else if nls > 0 {
             state.current_line += nls;
-            state.col = 0;
+            // the column continues after the comment's last line
+            state.col = c
+                .text
+                .rsplit('\n')
+                .next()
+                .map(|x| x.chars().count())
+                .unwrap_or(0);
         } else {
             state.col += c.text.chars().count();
         }
